@@ -50,6 +50,29 @@ def numeric(ctx, db, path, rules_, weighted=False, pair=False, accessor_args=Non
     return e, scen
 
 
+def surface(ctx, db, e, skip=(), weighted=False):
+    """How estimators of this type come into being and are fed, whatever the property quantifies over:
+    Default::default() is new(), clone()/clone_from are exact copies, estimate() is the headline statistic,
+    extend/collect are add in a loop from the current state, and no inherent method shadows a trait method
+    with different behaviour.  `skip` names the parts the property's driver arms itself."""
+    import forward_rules as FW
+    import fnode as F
+    t = e.path
+    mm = t.startswith("minmax")
+    q = t.endswith("Quantile")
+    if "default" not in skip:
+        R.r_default_is_new(ctx, db, e, new_args=(lambda m: [F.lit(0.5)]) if q else None)
+    if "clone" not in skip and not q:
+        R.r_derived_clone(ctx, db, e)
+        R.r_clone_from_exact(ctx, db, e, lambda m, nm, e=e: R.sym_self(m, e, nm))
+    if "estimate" not in skip:
+        FW.r_estimate_headline(ctx, db, e, assume=R.nonnan_state if mm else None)
+    if "ingest" not in skip and t in INGEST_TYPES:
+        FW.r_forward_ingest(ctx, db, e, max_items=2, state_assume=R.weights_assumer(db, e, False) if weighted else None)
+    if "shadow" not in skip:
+        R.r_shadow(ctx, db, e)
+
+
 def moment_args(N_):
     return {"central_moment": [(p,) for p in range(0, N_ + 1)], "standardized_moment": [(p,) for p in range(0, N_ + 1)]}
 
@@ -82,6 +105,7 @@ def c01(ctx):
                     import forward_rules as FW
                     FW.r_estimate_headline(ctx, db, r[0])
                     FW.r_forward_ingest(ctx, db, r[0], max_items=2)
+                    surface(ctx, db, r[0], skip=("estimate", "ingest", "shadow"))
     ctx.floor("Mean/Variance analysed over cfgs", n, 4)
 
 
@@ -98,6 +122,7 @@ def c03(ctx):
         # "for every sequence": extend/collect (by value and by reference) are add in a loop from the current state
         import forward_rules as FW
         FW.r_forward_ingest(ctx, db, r[0], max_items=2)
+        surface(ctx, db, r[0], skip=("ingest", "shadow"))
         kind = t.split("::")[-1]
         for k in ((2, 3, 4, 5) if ctx.tier == "quick" else (2, 3, 4, 5, 6, 7)):
             NL.stream_definitions(ctx, db, r[0], k, NL.defs_moments(kind), min_k={"sample_variance": 2, "error_mean": 2, "skewness": 2, "kurtosis": 2})
@@ -128,9 +153,8 @@ def c04(ctx):
                 continue
             n += 1
             R.r_binom(ctx, db, t, N_)
-            if cfg == "B" and t in INGEST_TYPES:
-                import forward_rules as FW
-                FW.r_forward_ingest(ctx, db, r[0], max_items=2)
+            if cfg == "B":
+                surface(ctx, db, r[0], skip=("shadow",))
             ks = (2, 3, N_ + 1) if ctx.tier == "quick" else tuple(range(2, N_ + 3))
             defs = {k_: v for k_, v in NL.defs_moments("Moments", N_).items() if k_ not in ("sample_skewness", "sample_excess_kurtosis", "sample_variance")}
             for k in ks:
@@ -167,6 +191,7 @@ def c02(ctx):
         which = ("L2", "L3", "L4")
         R.laws_add_merge(ctx, db, e, which)
         R.r_ident_merge(ctx, db, e)
+        surface(ctx, db, e, skip=("shadow",))     # the chunks that are merged are built by collect/extend/clone/Default
         if ctx.tier == "thorough" or t != "m8::M8":
             merge_stability(ctx, db, t)
         print(t, "%.1fs" % (time.time() - t0))
@@ -232,6 +257,7 @@ def c16(ctx):
         if path in INGEST_TYPES:
             import forward_rules as FW
             FW.r_forward_ingest(ctx, db, e, max_items=2, state_assume=R.weights_assumer(db, e, False) if kw.get("weighted") else None)
+        surface(ctx, db, e, skip=("default", "ingest"), weighted=kw.get("weighted", False))
     q = Est(db, "quantile::Quantile")
     if q.exists():
         types += 1
@@ -274,6 +300,7 @@ def c11(ctx):
         R.r_clone_from_exact(ctx, db, e, lambda m, nm, e=e: R.sym_self(m, e, nm))
         # "a freshly constructed empty estimator" can also come from Default
         R.r_default_is_new(ctx, db, e)
+        surface(ctx, db, e, skip=("default", "clone"), weighted=t.startswith("weighted_mean"))
     ctx.floor("Merge impls analysed (non-histogram)", n, 11)
     nh = 0
     for t, ln in HIST_TYPES:
@@ -321,6 +348,7 @@ def c05(ctx):
         return
     Q.r_p2_init(ctx, db, e, roles)
     c05_default(ctx, db, e)
+    surface(ctx, db, e, skip=("default",))
     Q.r_middle_marker(ctx, db, e, roles)
     n = Q.r_p2_step(ctx, db, e, roles)
     ctx.floor("abstract paths of Quantile::add (>= 5 observations) compared with the specification", n, 100)
@@ -341,6 +369,7 @@ def c07(ctx):
     Q.r_count_small(ctx, db, e, roles)
     # ... from `new(p)`; an estimator that concatenate! builds through `Default` starts from the same state (p = 0.5)
     c05_default(ctx, db, e)
+    surface(ctx, db, e, skip=("default",))
 
 
 def c15(ctx):
@@ -359,6 +388,7 @@ def c15(ctx):
     Q.r_middle_marker(ctx, db, e, roles)
     Q.r_small_quantile(ctx, db, e, roles, [0.0, 0.5, 1.0])
     R.r_sentinel(ctx, db, e, "Quantile", ctor_args=quantile_ctor)
+    surface(ctx, db, e)
 
 
 def hist_types(ctx, db):
@@ -475,6 +505,7 @@ def c14(ctx):
                 R.r_default_is_new(ctx, db, e)
                 import forward_rules as FW
                 FW.r_forward_ingest(ctx, db, e)
+                surface(ctx, db, e, skip=("default", "ingest"))
             else:
                 # "collect" includes rayon's parallel collect when the feature is on: fold(new, add).reduce(new, merge)
                 import forward_rules as FW
@@ -546,6 +577,8 @@ def c19(ctx):
         n += FW.r_rayon(ctx, db, e, assume=R.nonnan_state if t.startswith("minmax") else None)
         # preconditions rayon's fold/reduce contract needs: exact identity and the merge laws
         R.r_ident_merge(ctx, db, e, assume=R.nonnan_state if t.startswith("minmax") else None)
+        if t in INGEST_TYPES:
+            surface(ctx, db, e, skip=("ingest",))    # the reduce tree clones, merges into Default/new states
         if not t.startswith("minmax"):
             R.laws_add_merge(ctx, db, e, ("L2", "L3", "L4"))
             R.r_count(ctx, db, e, "A")
@@ -624,6 +657,8 @@ def c10(ctx):
             ing += 1
             FW.r_forward_ingest(ctx, db, e, max_items=2,
                                 state_assume=R.weights_assumer(db, e, False) if t.endswith("WeightedMeanWithError") else None)
+        if e.exists():
+            surface(ctx, db, e, skip=("ingest", "shadow"), weighted=t.endswith("WeightedMeanWithError"))
     dba = ctx.db("A")
     for t in ("moments::Variance", "moments::Kurtosis", "Moments4", "m5::M5"):
         e = Est(dba, t)
@@ -699,6 +734,7 @@ def c08(ctx):
         N.r_convex(ctx, db, e, scen, N.mean_fields(scen), weighted=True)
         R.r_ident_merge(ctx, db, e)
         FW.r_forward_ingest(ctx, db, e, max_items=2)
+        surface(ctx, db, e, skip=("ingest",), weighted=True)
         NL.accessor_laws(ctx, db, e)
         for k in ((1, 2, 3) if ctx.tier == "quick" else (1, 2, 3, 4, 5)):
             NL.stream_definitions(ctx, db, e, k, weighted_defs(kind), arity=2, build_args="weighted",
@@ -718,6 +754,7 @@ def c09(ctx):
         e, scen = r
         R.r_ident_merge(ctx, db, e)
         FW.r_forward_ingest(ctx, db, e, max_items=2)
+        surface(ctx, db, e, skip=("ingest", "shadow"))
         for k in ((1, 2, 3, 4) if ctx.tier == "quick" else (1, 2, 3, 4, 5)):
             NL.stream_definitions(ctx, db, e, k, cov_defs(), arity=2, build_args="pair",
                                   min_k={"sample_variance_x": 2, "sample_variance_y": 2, "sample_covariance": 2, "pearson": 2})
@@ -764,6 +801,7 @@ def c17(ctx):
             FW.r_forward_ingest(ctx, db, e, state_assume=R.weights_assumer(db, e, False))
         if t.endswith("WeightedMeanWithError"):
             N.r_effective_len(ctx, db, e, scen)
+        surface(ctx, db, e, skip=("ingest",) if kw.get("weighted") else (), weighted=kw.get("weighted", False))
         if t in ("moments::Variance", "moments::Skewness", "moments::Kurtosis"):
             # "so error() is a real number": wherever variance_of_mean is defined (n >= 1: 0 for one observation) error() is its root, not NaN
             R.r_sentinel(ctx, db, e, t.split("::")[-1], only=("variance_of_mean", "error", "error_mean"))
@@ -775,6 +813,7 @@ def c17(ctx):
         N.r_sign(ctx, db, e, scen)
         N.r_convex(ctx, db, e, scen, N.mean_fields(scen))
         N.r_underflow(ctx, db, e, scen, N.mean_fields(scen))
+        surface(ctx, db, e)
     import hist_rules as H
     for e, ln, consts in hist_types(ctx, db):
         if ln <= 4:
@@ -908,6 +947,9 @@ PROPS["C01"]["explanation"] += (" Estimate::estimate returns the headline statis
                                  "uniformly in the item position (R-FORWARD).")
 for _p in ("C03", "C04"):
     PROPS[_p]["explanation"] += " extend/collect (f64 and &f64) are add in a loop from the current state (R-FORWARD)."
+for _p in ("C01", "C02", "C03", "C04", "C05", "C07", "C08", "C09", "C10", "C11", "C14", "C15", "C16", "C17", "C19"):
+    PROPS[_p]["explanation"] += (" Construction surface of every estimator type involved: Default = new, clone/clone_from exact, estimate() = headline "
+                                 "statistic, extend/collect = add loop, no inherent method shadowing a trait method (the same rules in every property).")
 PROPS["C09"]["explanation"] += " No inherent method shadows a trait method of the same name with a different body (R-SIB inherent-vs-trait)."
 PROPS["C17"]["explanation"] += (" R-UNDERFLOW: the range clause has no absolute slack (denormals are in the domain), so the new mean of add/merge may contain at most one "
                                  "operation that can round a subnormal (a product with a non-integer, a quotient), at the root or as the increment of the stored mean, "
